@@ -47,7 +47,7 @@ ARENA_FAMILIES = {
         fns=["strcmp_s", "strcasecmp_s", "strcoll_s", "strcmpfld_s", "wcscmp_s", "wcsncmp_s", "wcsicmp_s", "wcscoll_s", "strnatcmp_s", "strnatcasecmp_s", "wcsnatcmp_s", "wcsnaticmp_s", "memcmp_s", "memcmp16_s", "memcmp32_s", "wmemcmp_s",
              "strstr_s", "strcasestr_s", "wcsstr_s", "strpbrk_s", "strspn_s", "strcspn_s", "strfirstdiff_s", "strfirstsame_s",
              "strlastdiff_s", "strlastsame_s", "strprefix_s"],
-        quick=dict(N=5, K=2, BosMode=0, QA=0), thorough=dict(N=6, K=2, BosMode=1, QA=1), props={"C01", "C02", "C05"}, flavours=("slack",)),
+        quick=dict(N=5, K=2, BosMode=1, QA=0), thorough=dict(N=6, K=2, BosMode=1, QA=1), props={"C01", "C02", "C05"}, flavours=("slack",)),
     "query1": dict(
         fns=["strnlen_s", "wcsnlen_s", "strisalphanumeric_s", "strisascii_s", "strisdigit_s", "strishex_s", "strislowercase_s",
              "strismixedcase_s", "strisuppercase_s", "strchr_s", "strrchr_s", "strfirstchar_s", "strlastchar_s", "memchr_s", "memrchr_s", "strispassword_s"],
